@@ -271,6 +271,15 @@ fn const_json<'tcx>(tcx: TyCtxt<'tcx>, env: TypingEnv<'tcx>, c: &Const<'tcx>) ->
         }
         _ => {}
     }
+    if let Const::Val(rustc_middle::mir::ConstValue::Scalar(rustc_middle::mir::interpret::Scalar::Ptr(ptr, _)), _) = c {
+        let aid = ptr.provenance.alloc_id();
+        if let Some(ga) = tcx.try_get_global_alloc(aid) {
+            if let rustc_middle::mir::interpret::GlobalAlloc::Static(did) = ga {
+                let _ = write!(o, ",\"static\":{}", esc(&canon_path(tcx, did)));
+                let _ = write!(o, ",\"static_path\":{}", esc(&with_no_trimmed_paths!(tcx.def_path_str(did))));
+            }
+        }
+    }
     if let Const::Unevaluated(uv, _) = c {
         let _ = write!(o, ",\"item\":{}", esc(&canon_path(tcx, uv.def)));
         if uv.promoted.is_some() {
